@@ -323,6 +323,12 @@ def _oracle(w, expect, stats, out):
             _judge(w, expect, ex, by_t, stats, second, True)
             if not second.items:
                 stats["sighting_proxy_followed"] = stats.get("sighting_proxy_followed", 0) + 1
+                if ex["causes"] and set(ex["causes"]) == {"boundary"}:
+                    # the copies of one multicast sighting reach the sockets of the responder within the link's jitter
+                    # of each other; the entry and the log name different copies of it (less than 0.5 ms apart) and
+                    # the quarter ends between them: which copy counts is not something the statement settles
+                    stats["sighting_boundary_ties"] = stats.get("sighting_boundary_ties", 0) + 1
+                    continue
                 for cause in ex["causes"] or ["unclassified"]:
                     out.add("C11.sighting-proxy", f"{first.items[0][1]} - the library's answer is the one that follows from "
                             f"its cache entry instead of the multicast sightings ({cause})", cause=cause)
